@@ -158,8 +158,9 @@ class Enumerator:
     stop_at(state, bi) optional: prune."""
 
     def __init__(self, fn, init_disc=None, bool_oracle=None, max_paths=60000, max_visits=1, on_call=None, prune=None,
-                 summaries=True):
+                 summaries=True, track_cmp=False):
         self.fn = fn
+        self.track_cmp = track_cmp
         self.init_disc = init_disc or {}
         self.bool_oracle = bool_oracle
         self.max_paths = max_paths
@@ -276,6 +277,13 @@ class Enumerator:
                     b = self.val_of(st, rv["b"])
                     if a and b and a[0] == "const" and b[0] == "const":
                         v = ("const", (a[1] == b[1]) if rv["op"] == "Eq" else (a[1] != b[1]))
+                if v is None and k == "binop" and rv["op"] in ("Lt", "Le", "Gt", "Ge", "Eq", "Ne") and self.track_cmp:
+                    # an order comparison of two runtime values: keep which one, so a branch on it can be recorded
+                    v = ("cmp", rv["op"], rv["a"], rv["b"], False)
+                if v is None and k == "unop" and rv["op"] == "Not" and self.track_cmp:
+                    a = self.val_of(st, rv["a"])
+                    if a and a[0] == "cmp":
+                        v = a[:4] + (not a[4],)
                 if v is None:
                     st.vals.pop(l, None)
                 else:
@@ -384,6 +392,18 @@ class Enumerator:
                     st.disc[key] = cons
                     st.hist.append((key, cons))
                     bi = bb
+                    continue
+                if v and v[0] == "cmp" and t["ty"] == "bool":
+                    fl = ow
+                    for val, bb in targets:
+                        if val == 0:
+                            fl = bb
+                    # outcome of the comparison itself (undo a negation)
+                    s2 = st.clone()
+                    s2.hist.append(("cmp", (v[1], v[2], v[3], not v[4])))
+                    self._walk(ow, s2, out)
+                    st.hist.append(("cmp", (v[1], v[2], v[3], v[4])))
+                    bi = fl
                     continue
                 if v and v[0] == "fieldbool" and t["ty"] == "bool":
                     key = v[1]
